@@ -283,4 +283,30 @@ def wfCheck : Bool :=
   && allBelow net.nL (fun l => !(isJunction net (net.src l) && isJunction net (net.dst l)) ||
         (net.jorder.idxOf (net.src l) < net.jorder.idxOf (net.dst l)))
 
+/-! ### whole runs (layer L1: the parameter values of every step are inputs) -/
+
+/-- `Model.process` main loop: one entry `(stock at index i, flows at index i)` per time index; `pvs` holds the parameter
+    values of each index.  `none` as soon as a step is undefined (NaN in the code). -/
+def runFrom (dt : Rat) : List (Nat → Rat) → Stock → Option (List (Stock × Flow))
+  | [], _ => some []
+  | pv :: pvs, x =>
+      match step net dt pv x with
+      | none => none
+      | some (fl, x') =>
+          match runFrom dt pvs x' with
+          | none => none
+          | some rest => some ((x, fl) :: rest)
+
+/-- start-up sequence of `Model.process`: parameters (`pvPre`), initial junction flush, parameters again (`pvs.head`), links -/
+def process (dt : Rat) (pvPre : Nat → Rat) (pvs : List (Nat → Rat)) (xinit : Stock) : Option (List (Stock × Flow)) :=
+  (flushAll net pvPre xinit net.jorder).bind (fun x0 => runFrom net dt pvs x0)
+
+/-- links incident to one duration-group junction draw from / deliver to the same number of rows
+    (the junction balances row by row, so a mismatch would drop or misplace people) -/
+def wfGroupRows : Bool :=
+  allBelow net.nL (fun l1 => allBelow net.nL (fun l2 =>
+    let inc := fun (l j : Nat) => net.src l == j || net.dst l == j
+    allBelow net.nC (fun j =>
+      !(isJunction net j && net.jgroup j && inc l1 j && inc l2 j) || net.lrows l1 == net.lrows l2)))
+
 end Atomica.Engine
